@@ -136,6 +136,26 @@ def _range_bounds(body, refop):
     return None
 
 
+def _precast_place(body, op, limit=12):
+    """the place at the root of a copy / integer-cast chain (its type tells whether the value was signed before the casts)"""
+    p = op_place(op)
+    for _ in range(limit):
+        if p is None or p["p"]:
+            return p
+        ds = body.defs.get(p["l"], [])
+        if len(ds) != 1 or ds[0].si is None or ds[0].node["k"] != "assign":
+            return p
+        rv = ds[0].node["rv"]
+        if rv["k"] == "use" or (rv["k"] == "cast" and rv.get("cast") == "IntToInt"):
+            q = op_place(rv["ops"][0])
+            if q is None:
+                return p
+            p = q
+        else:
+            return p
+    return p
+
+
 def lower_bound(prog, body, op, site, depth=0):
     """a proven lower bound of an integer operand at `site` (None = unknown)"""
     k = op_const(op)
@@ -145,6 +165,8 @@ def lower_bound(prog, body, op, site, depth=0):
     if p is None or depth > 6:
         return None
     root = value_root(body, op)
+    # signedness is that of the value before any `as usize`: a negative isize does not become >= 0 by being cast
+    p = _precast_place(body, op) or p
     best = None
     for r, lb, _ in _cmp_facts(body, site.bb):
         if r == root:
@@ -212,7 +234,6 @@ PANIC_TABLE = [
     (r"^aa::aa_framework::AAFramework::<T>::new_attack$", "Index::index", 2, "ids returned by get_argument are < labels.len() = length of the index vectors (C12 index-pairing growth rule); attack ids stored in the index lists are < attacks.len() (C12 index-pairing)"),
     (r"^aa::aa_framework::AAFramework::<T>::new_attack$", "IndexMut::index_mut", 2, "same ids"),
     (r"^aa::aa_framework::AAFramework::<T>::new_attack$", "Overflow:Sub", 2, "attacks.len() - 1 right after a push"),
-    (r"^aa::aa_framework::AAFramework::<T>::new_attack_by_ids$", "IndexMut::index_mut", 2, "guarded by the range test at the top of the function (live count = vector length on reader-built frameworks, observation O2)"),
     (r"^aa::aa_framework::AAFramework::<T>::new_attack_by_ids$", "Overflow:Sub", 3, "attacks.len() - 1 after a push (2); `n - 1` in the error text needs n = 0, which the ICCMA reader excludes by its own range test before calling (observation O3)"),
     (r"^utils::label::LabelSet::<T>::len$", "Overflow:Sub", 1, "removed counter <= labels.len() (C12 removed-counter)"),
     (r"^utils::label::LabelSet::<T>::new_label$", "Overflow:Sub", 1, "labels.len() - 1 right after a push"),
@@ -503,6 +524,31 @@ def _const_index_guard(prog, b, s):
     return None
 
 
+def _index_below_count_guard(prog, b, s):
+    """`v[i]` under a dominating test `i < n` / not `i >= n` where n is a length / argument count (the update-by-id range test)"""
+    if len(s.node["args"]) < 2:
+        return None
+    root = value_root(b, s.node["args"][1])
+    if root is None:
+        return None
+    for c in conditions(b, s.bb):
+        if c.is_discr:
+            continue
+        truth = True if c.is_true() else (False if c.is_false() else None)
+        if truth is None:
+            continue
+        for o in origins(b, c.place, transparent=()):
+            if o.kind != "binop":
+                continue
+            a, n_ = o.data["ops"]
+            below = (o.data["op"] == "Lt" and truth) or (o.data["op"] == "Ge" and not truth)
+            if below and value_root(b, a) == root:
+                _, calls, _ = data_deps(b, n_)
+                if any(callee_matches(callee_of(x), r"(Vec::len|slice::len|ArgumentSet::len|LabelSet::len|n_arguments)$") for x in calls):
+                    return "index below a count by a dominating range test"
+    return None
+
+
 def _bounds_assert_guard(prog, b, s):
     """slice[k] bounds assert with constant k under a dominating len test"""
     n = s.node
@@ -515,6 +561,10 @@ def _bounds_assert_guard(prog, b, s):
                     k = oo.data["int"]
             if k is None:
                 return None
+            # a fixed-size array: the length is a constant too
+            klen = [oo.data["int"] for oo in origins(b, ln, transparent=()) if oo.kind == "const" and "int" in oo.data]
+            if len(klen) == 1 and len(origins(b, ln, transparent=())) == 1 and k < klen[0]:
+                return "constant index %d into an array of %d elements" % (k, klen[0])
             # the slice whose metadata is read
             sl = None
             for oo in origins(b, ln, transparent=()):
@@ -581,7 +631,7 @@ def rule_panic_census(ctx):
                             if "error" not in res:
                                 why = "constant pattern compiles (%d DFA product states explored)" % res.get("states", 0)
             elif kind in ("Index::index", "IndexMut::index_mut"):
-                why = _const_index_guard(prog, b, s) or _store_internal_index(prog, b, s)
+                why = _const_index_guard(prog, b, s) or _store_internal_index(prog, b, s) or _index_below_count_guard(prog, b, s)
             elif kind == "BoundsCheck":
                 why = _bounds_assert_guard(prog, b, s)
             elif kind == "Overflow:Add":
@@ -1005,6 +1055,66 @@ def _blank_line_rejected(prog, rd):
     return (bad is None, bad)
 
 
+def _check_preamble(prog, r, rd):
+    from .grounded import inherited_conditions, _cond_trees
+    from ..prov import prov, subterms, show
+
+    pre = None
+    # the function whose result becomes the number of arguments of the new framework (feeds ArgumentSet::new_with_labels)
+    lab_calls = set()
+    for y in prog.with_closures(rd):
+        for s0 in y.calls():
+            if callee_matches(callee_of(s0), r"ArgumentSet::new_with_labels$"):
+                _, cs0, _ = data_deps(y, s0.node["args"][0])
+                lab_calls |= {(y.id, c.bb, c.si) for c in cs0}
+    for y in prog.with_closures(rd):
+        for s in y.calls():
+            t = prog.body_for_callee(callee_of(s), y) if callee_of(s) else None
+            if t is not None and t.kind != "closure" and re.match(r"^core::result::Result<usize, ", t.ret_ty) and (y.id, s.bb, s.si) in lab_calls:
+                pre = t
+    if pre is None:
+        r.ok(rd.id + "|preamble", "NOT decided: no preamble function (-> Result<usize>) called by read", rd.loc())
+        return
+    kind_params = [i for i in range(1, pre.n_args + 1) if pre.local_ty(i) == "&str"]
+    oks = [s for s in pre.sites() if s.si is not None and s.node["k"] == "assign" and s.node["rv"]["k"] == "aggregate" and s.node["rv"]["agg"].get("path") == "core::result::Result" and s.node["rv"]["agg"].get("variant") == "Ok"]
+    if not oks:
+        r.ok(pre.id + "|preamble", "NOT decided: no `Ok(..)` built in the preamble function", pre.loc())
+        return
+    for k, s in enumerate(oks):
+        anchor = "%s|preamble#%d" % (pre.id, k)
+        conds = _cond_trees(prog, inherited_conditions(prog, pre, s.bb))
+        first = kindok = False
+        saw_str_tests = False
+        for e, t in conds:
+            if e[0] == "call" and re.search(r"cmp::PartialEq::(ne|eq)$", e[1]) and len(e[2]) == 2:
+                holds_eq = (e[1].endswith("::eq") and t) or (e[1].endswith("::ne") and not t)
+                consts = [a[1] for a in e[2] if a[0] == "const" and isinstance(a[1], str)]
+                params = [a for a in e[2] if a[0] == "param" and a[2] in kind_params and not a[3]]
+                saw_str_tests = True
+                if holds_eq and "p" in consts:
+                    first = True
+                if holds_eq and params:
+                    kindok = True
+        if not saw_str_tests:
+            r.ok(anchor, "NOT decided: no string comparison governs the accepted preamble", s.loc())
+        else:
+            r.check(first, anchor, "first-word-not-checked", "accepted only when the first word is `p`", "a preamble is accepted without its first word being compared with \"p\"", s.loc())
+            r.check(kindok or not kind_params, anchor, "kind-not-checked", "accepted only when the second word is the expected kind", "a preamble is accepted without its second word being compared with the expected kind (`p cnf 3` read as a framework)", s.loc())
+        # the count: >= 0 accepted, negative rejected
+        lb = None
+        found = False
+        for o in origins(pre, s.node["rv"]["ops"][0], transparent=("core::option::Option::unwrap", "core::option::Option::expect")):
+            if o.kind == "agg" and o.data.get("variant") == "Some":
+                found = True
+                lb = lower_bound(prog, pre, o.site.node["rv"]["ops"][0], o.site)
+        if not found:
+            lb = lower_bound(prog, pre, s.node["rv"]["ops"][0], s)
+            root = value_root(pre, s.node["rv"]["ops"][0])
+            found = root is not None
+        if found:
+            r.check(lb == 0, anchor, "count-lower-bound=%s" % lb, "a count is accepted iff it is >= 0 (the empty framework is well-formed)", ("a negative argument count can be accepted" if lb is None else "the preamble `p af %d` is rejected although it is well-formed" % (lb - 1)), s.loc())
+
+
 def rule_iccma_guards(ctx):
     prog = ctx.prog
     r = ctx.rule(
@@ -1037,6 +1147,8 @@ def rule_iccma_guards(ctx):
     for s in ins:
         for pos, role in ((1, "attacker"), (2, "attacked")):
             _check_id(prog, r, s.body, s.node["args"][pos], s, "%s|%s" % (rd.id, role), role, pos - 1)
+    # G1 the preamble `p <kind> <n>`: the count is returned only for first word "p", second word = the expected kind, n >= 0 (0 included)
+    _check_preamble(prog, r, rd)
     # G4 content after a blank line
     res = _blank_line_rejected(prog, rd)
     if res is None:
